@@ -67,3 +67,33 @@ package v0
 //@   atcall BlockStore.SaveBlock validated: blockValidated(arg1, state.Validators, state.LastBlockHeight)
 //@   atcall BlockStore.SaveBlock pair: arg1 == first && arg3 == second.LastCommit
 //@   atcall BlockExecutor.ApplyBlock same: arg3 == first && arg2.Hash == types.Block.Hash(first) && commitVerified(arg1.Validators, chainID, arg2.Hash, arg2.PartSetHeader.Total, arg2.PartSetHeader.Hash, first.Header.Height, second.LastCommit)
+
+// ---- C17: the block sync reactor acts on a peer's message only after ValidateMsg accepted that very message ----
+//@ import bc github.com/tendermint/tendermint/blockchain
+//@ ghost var bcValidMsg int
+//@ extern bc.ValidateMsg
+//@   assigns bcValidMsg
+//@   sets bcValidMsg = ite(result == nil, payload(pb), 0) when true
+//@ extern types.BlockFromProto
+//@   assigns nothing
+//@ extern p2p.Peer.ID
+//@   pure
+//@   assigns nothing
+//@ extern store.BlockStore.Height
+//@   assigns nothing
+//@ extern store.BlockStore.Base
+//@   assigns nothing
+//@ func BlockchainReactor.respondToPeer
+//@   trusted
+//@   assigns nothing
+//@ func BlockPool.AddBlock
+//@   trusted
+//@   assigns except(types, bcproto)
+//@ func BlockPool.SetPeerRange
+//@   trusted
+//@   assigns except(types, bcproto)
+//@ import bcproto github.com/tendermint/tendermint/proto/tendermint/blockchain
+//@ func BlockchainReactor.ReceiveEnvelope
+//@   atcall BlockchainReactor.respondToPeer valid: bcValidMsg == ref(arg1)
+//@   atcall BlockPool.AddBlock valid: bcValidMsg == payload(e.Message)
+//@   atcall BlockPool.SetPeerRange valid: bcValidMsg == payload(e.Message)
